@@ -1273,13 +1273,18 @@ def _longterm_case(rng, tier):
     return g.case("longterm")
 
 
-def _longsum_case(rng, tier):
-    """sums of 9 .. 130 terms (on 2 - 4 qubits, so with many like terms in every order): simplify, + - *, == of the same
+def _longsum_case(rng, tier, ladder=False):
+    """(ladder: 255 .. 1025 terms on 5 qubits, linear operations only – the number of terms is unbounded in the property, the sizes
+    cross the round numbers where a chunked / block-wise merge of like terms would sit)
+    sums of 9 .. 130 terms (on 2 - 4 qubits, so with many like terms in every order): simplify, + - *, == of the same
     terms in another order, against short operands of every kind"""
     pool = _pool(rng, 4)
     if len(pool) < 2:
         pool = sorted(set(pool + [pool[0] + 1]))
     L = rng.choice([9, 12, 17, 33, 63, 64, 65, 70, 129] if tier == "quick" else [9, 16, 33, 63, 64, 65, 100, 128, 129, 200])
+    if ladder:
+        pool = list(range(5))
+        L = rng.choice([255, 256, 257, 511, 512, 513, 1023, 1024, 1025])
     ts = [_term(rng, pool, allow_zero=(rng.random() < 0.3), const_p=0.05) for _ in range(L)]
     for t in ts:
         t.pop("ty", None)
@@ -1293,6 +1298,8 @@ def _longsum_case(rng, tier):
     a1 = g("add", LONG, EMPTY); g("eq", a1, s1); d = g("sub", LONG, PERM); g("eq", d, EMPTY); g("eq", EMPTY, d)
     g("add", LONG, PERM); g("add", LONG, TERM); g("sub", TERM, LONG); g("add", NUM, LONG); g("sub", LONG, NUM)
     g("mul", LONG, TERM); g("mul", TERM, LONG); g("mul", LONG, NUM); g("mul", NUM, LONG); g("div", LONG, NUM)
+    if ladder:
+        return g.case("longsum")
     g("mul", LONG, SHORT); m2 = g("mul", SHORT, PERM); g("eq", LONG, PERM)
     if L <= 20:
         g("pow", LONG, p=2); g("mul", LONG, PERM)
@@ -1471,6 +1478,8 @@ def generate(rng, tier):
         cases.append(_longterm_case(rng, tier))
     for _ in range(50 if big else 14):
         cases.append(_longsum_case(rng, tier))
+    for _ in range(12 if big else 4):
+        cases.append(_longsum_case(rng, tier, ladder=True))
     for _ in range(100 if big else 24):
         cases.append(_types_case(rng, tier))
     for _ in range(100 if big else 24):
